@@ -78,6 +78,8 @@ pub enum Ev {
     Blackout(LinkId),
     /// deliver the i-th PDU of the scenario's injection alphabet directly to its target
     Inject(u8),
+    /// link latency: the PDUs in flight take `wait_ms` longer (no timer expires meanwhile)
+    Wait,
 }
 
 #[derive(Clone, Debug, PartialEq, Eq, Serialize, Deserialize)]
@@ -134,6 +136,14 @@ pub struct Scenario {
     pub idle: u8,
     pub inject: Vec<InjectSpec>,
     pub inject_budget: u8,
+    /// injections only until the receiver has reported a successful delivery
+    #[serde(default)]
+    pub inject_before_success: bool,
+    /// budget and length of `Wait` events (PDUs spaced in time by less than any timer)
+    #[serde(default)]
+    pub waits: u8,
+    #[serde(default)]
+    pub wait_ms: u64,
     pub max_depth: usize,
     /// cycles are expected (Ignore handlers) — the engine cuts instead of reporting livelock
     pub allow_cycles: bool,
@@ -171,6 +181,9 @@ impl Scenario {
             idle: 0,
             inject: vec![],
             inject_budget: 0,
+            inject_before_success: false,
+            waits: 0,
+            wait_ms: 0,
             max_depth: 400,
             allow_cycles: false,
         }
@@ -437,6 +450,7 @@ pub struct World {
     pub user_left: Vec<u8>,
     pub idle_left: u8,
     pub inject_left: u8,
+    pub waits_left: u8,
     pub blackout_left: Vec<LinkId>,
     /// the receiver reported NoError/Complete at least once (gates C04 stragglers)
     pub r_success_seen: bool,
@@ -564,6 +578,7 @@ impl World {
             user_left: scn.user.iter().map(|u| u.2).collect(),
             idle_left: scn.idle,
             inject_left: scn.inject_budget,
+            waits_left: scn.waits,
             blackout_left: scn.blackout.clone(),
             r_success_seen: false,
             t0: tokio::time::Instant::now(),
@@ -797,6 +812,10 @@ impl World {
                 }
             }
         }
+        // link latency shorter than every running timer
+        if self.waits_left > 0 && in_flight && !sends_pending && min.map_or(true, |m| m > Duration::from_millis(scn.wait_ms)) {
+            v.push(Ev::Wait);
+        }
         // link faults (head only)
         if self.faults_left > 0 {
             for l in [LinkId::SR, LinkId::RS] {
@@ -821,6 +840,7 @@ impl World {
                 if scn.k_corrupt && scn.crc {
                     v.push(Ev::Corrupt(l, 0));
                     v.push(Ev::Corrupt(l, 1));
+                    v.push(Ev::Corrupt(l, 2));
                 }
             }
         }
@@ -855,7 +875,7 @@ impl World {
             v.push(Ev::Blackout(*l));
         }
         // injections
-        if self.inject_left > 0 {
+        if self.inject_left > 0 && !(scn.inject_before_success && self.r_success_seen) {
             for (i, spec) in scn.inject.iter().enumerate() {
                 let to = match spec {
                     InjectSpec::Nak(_) => Side::S,
@@ -1118,8 +1138,16 @@ impl World {
                 self.faults_left -= 1;
                 let mut b = self.link(*l).pop_front().unwrap();
                 // flip a byte after the 4 fixed header octets: first data-field byte or the last byte
+                // (a low-order octet: the 4th of the data field — the least significant octet of a
+                // file-data offset — or the very last one, so that a PDU accepted in spite of the
+                // damage stays inside the small files of the scenarios)
                 let hl = 4 + 3 * 2;
-                let pos = if *which == 0 { usize::min(hl, b.len() - 1) } else { b.len() - 1 };
+                let pos = match *which {
+                    0 => usize::min(hl + 3, b.len() - 1),
+                    1 => b.len() - 1,
+                    // the last octet in front of the CRC: a payload octet of a file-data PDU
+                    _ => b.len().saturating_sub(3).max(hl.min(b.len() - 1)),
+                };
                 b[pos] ^= 0x5a;
                 self.deliver_bytes(*l, &b, &mut rec);
             }
@@ -1199,6 +1227,10 @@ impl World {
                         self.link_rs.clear();
                     }
                 }
+            }
+            Ev::Wait => {
+                self.waits_left -= 1;
+                tokio::time::advance(Duration::from_millis(self.scn.wait_ms)).await;
             }
             Ev::Inject(i) => {
                 self.inject_left -= 1;
@@ -1334,7 +1366,7 @@ impl World {
             String::new()
         };
         format!(
-            "{}\n{}\nSR[{}]{}\nRS[{}]{}\nsent[{}]\nB f={} st={} u={:?} idle={} inj={} bl={:?} succ={} depthcap={}\nroot={:?}",
+            "{}\n{}\nSR[{}]{}\nRS[{}]{}\nsent[{}]\nB f={} st={} u={:?} idle={} inj={} w={} bl={:?} succ={} depthcap={}\nroot={:?}",
             s,
             r,
             hexq(&self.link_sr),
@@ -1347,8 +1379,9 @@ impl World {
             self.user_left,
             self.idle_left,
             self.inject_left,
+            self.waits_left,
             self.blackout_left,
-            self.r_success_seen && self.scn.stragglers_after_success,
+            self.r_success_seen && (self.scn.stragglers_after_success || self.scn.inject_before_success),
             self.steps >= self.scn.max_depth,
             root.iter().map(|(k, v)| format!("{}={}", k, v.as_ref().map_or("<dir>".to_string(), |b| hex(b)))).collect::<Vec<_>>(),
         )
